@@ -26,7 +26,23 @@ pub fn drive_c20(h: &mut Hist) -> RunResult2 {
     let n_callers = 1 + sim.idx(4);
     let two_pairs = h.n_dst > 1 && sim.chance(1, 3);
     let budget = 150 + sim.idx(250) as u64;
-    sim.log(format!("c20 scenario pure_race={pure_race} callers={n_callers} two_pairs={two_pairs}"));
+    // A quarter of the runs use priority scheduling in the style of PCT instead of uniform random choice: every actor gets
+    // a drawn priority, every hooked point yields to the driver, the driver always resumes the runnable actor of highest
+    // priority, and at 1-3 drawn steps the running actor's priority drops below all others. This finds orderings that
+    // need one task to be starved for a long stretch, which uniform choice reaches with vanishing probability.
+    let pct = sim.chance(1, 4);
+    let mut prio: std::collections::BTreeMap<ActorId, i64> = Default::default();
+    let mut change_points: Vec<u64> = Vec::new();
+    let mut low: i64 = 0;
+    let mut resumes: u64 = 0;
+    if pct {
+        sim.set_preempt(1, 1);
+        for _ in 0..1 + sim.idx(3) {
+            change_points.push(1 + sim.draw(120));
+        }
+        sim.probe("pct-schedule");
+    }
+    sim.log(format!("c20 scenario pure_race={pure_race} callers={n_callers} two_pairs={two_pairs} pct={pct}"));
     let mut callers: Vec<Caller> = Vec::new();
     let mut spawned = 0usize;
     let mut removal_events = 0usize;
@@ -84,6 +100,22 @@ pub fn drive_c20(h: &mut Hist) -> RunResult2 {
             x -= w;
         }
         match op {
+            0 if pct => {
+                for a in &runnable {
+                    if !prio.contains_key(a) {
+                        let p = 1000 + sim.draw(1 << 20) as i64;
+                        prio.insert(*a, p);
+                    }
+                }
+                let a = *runnable.iter().max_by_key(|a| (prio[*a], **a)).expect("runnable");
+                resumes += 1;
+                if change_points.contains(&resumes) {
+                    low -= 1;
+                    prio.insert(a, low);
+                    sim.probe("pct-priority-change");
+                }
+                sim.resume(a);
+            }
             0 => {
                 let k = if runnable.len() == 1 { 0 } else { sim.idx(runnable.len()) };
                 sim.resume(runnable[k]);
